@@ -225,6 +225,8 @@ def monitors(case, obs):
     v = []
     do_apply = bool(kw.get("_doApply", False))
     user_kw = {k: x for k, x in kw.items() if k not in RESERVED}
+    if "crash" in obs:
+        return [("decorator.wrapper:unexpected-exception", obs["crash"])]
     if do_apply:
         return v
     # C11 / C19: the method body on the applying side gets exactly the caller's arguments
@@ -285,8 +287,13 @@ def run(ctx):
             lines.append(json.dumps({"op": "outcome", "flag": True, "res": ans[1], "err": 0}))
         else:
             lines.append(json.dumps({"op": "outcome", "flag": True, "res": None, "err": ans[1]}))
-    out = ctx.driver("queue", lines)
-    assert len(out) == len(lines), (len(out), len(lines))
+    try:
+        out = ctx.driver("queue", lines)
+        assert len(out) == len(lines), (len(out), len(lines))
+        driver_err = None
+    except Exception as e:   # noqa
+        out = ['{"error": "driver"}'] * len(lines)
+        driver_err = repr(e)[:300]
 
     cov = {"plan_local": 0, "mode_nocb": 0, "mode_user": 0, "mode_sync": 0, "shape_bare": 0, "shape_two": 0,
            "shape_three": 0, "three_with_empty_kw": 0, "ret_value": 0, "ret_raised": 0, "ret_timeout": 0,
@@ -297,10 +304,18 @@ def run(ctx):
         m, a, kw, ans = case
         mj = json.loads(out[2 * i])
         oj = json.loads(out[2 * i + 1])
+        try:
+            obs, _ = run_real(so, Obj, AR, case)
+        except Exception as e:   # noqa  (the real wrapper / unpacking blew up: that is an observation too)
+            obs = {"crash": "%s: %s" % (type(e).__name__, e)}
         if "error" in mj or "error" in oj:
-            disagreements.append({"input": repr(case), "model": mj, "impl": None, "note": "driver error"})
+            if driver_err is None and len(disagreements) < 3:
+                disagreements.append({"input": repr(case), "model": mj, "impl": None, "note": "driver rejected the case"})
+            for sig, what in monitors(case, obs):
+                if len(violations) < 3 and sig not in [x["signature"] for x in violations]:
+                    violations.append({"signature": sig, "what": what,
+                                       "replay": {"method": m, "args": qc.to_v(a), "kw": kw_model(kw), "answer": list(ans)}})
             continue
-        obs, _ = run_real(so, Obj, AR, case)
         exp = expect_from_model(case, fid[m], mj, oj)
         key = qc.canon([m, qc.to_v(a), kw_model(kw), list(ans)])
         distinct.add(key)
@@ -342,7 +357,9 @@ def run(ctx):
     floors = [k for k in ("plan_local", "mode_nocb", "mode_user", "mode_sync", "shape_bare", "shape_two", "shape_three",
                           "three_with_empty_kw", "ret_value", "ret_raised", "ret_timeout", "callback_and_sync")
               if cov[k] == 0]
-    if floors:
+    if driver_err is not None:      # binary missing / being relinked: infrastructure, not a finding
+        res["inconclusive"] = "driver queue unavailable: " + driver_err
+    elif floors:
         res["inconclusive"] = "coverage floor missed: " + ",".join(floors)
     return res
 
